@@ -20,7 +20,7 @@ import (
 
 func TestMain(m *testing.M) {
 	time.Local = time.UTC
-	ev.Describe("argument tuples for every operation, built from a valid call by 0..2 perturbations chosen from classes on both sides of every documented boundary: controller id 0; card numbers {0, 0xffffffff, 0x00ffffff, F*100000+N with F and N inside and just outside 255/65535, 8-, 9- and 10-digit numbers} x format lists {none, any, Wiegand-26, both}; PIN 999999/1000000/large; listener addresses {zero value, 0.0.0.0:0, IPv4:0, 0.0.0.0:port, IPv4:port, IPv6, IPv4-mapped IPv6, zone-qualified}; SetAddress IPs of length 0/3/4/5/16 (IPv6 and IPv4-mapped); doors 0..255; 0..8 passcodes around 999999; profiles with missing dates, missing segment keys, nil segment map, end before/equal/after start. Oracle: a reference predicate mustReject(op, args) - rejected => error AND zero transport calls; accepted => exactly one transport call whose bytes equal the protocol model's encoding and, with a valid reply, no error. Sweeps: card numbers F x N grid around the Wiegand-26 bounds and (thorough) every card number 0..30,000,000. Non-trivial = rejected tuple or a tuple within one step of a boundary; distinct = distinct tuple.",
+	ev.Describe("on unconfigured clients and on clients with configured controllers / bind / broadcast / listen addresses / debug output, incl. arguments that coincide with configured values (listener = the controller's own, the bind, broadcast or listen address; card number or index = controller id): argument tuples for every operation, built from a valid call by 0..2 perturbations chosen from classes on both sides of every documented boundary: controller id 0; card numbers {0, 0xffffffff, 0x00ffffff, F*100000+N with F and N inside and just outside 255/65535, 8-, 9- and 10-digit numbers} x format lists {none, any, Wiegand-26, both}; PIN 999999/1000000/large; listener addresses {zero value, 0.0.0.0:0, IPv4:0, 0.0.0.0:port, IPv4:port, IPv6, IPv4-mapped IPv6, zone-qualified}; SetAddress IPs of length 0/3/4/5/16 (IPv6 and IPv4-mapped); doors 0..255; 0..8 passcodes around 999999; profiles with missing dates, missing segment keys, nil segment map, end before/equal/after start. Oracle: a reference predicate mustReject(op, args) - rejected => error AND zero transport calls; accepted => exactly one transport call whose bytes equal the protocol model's encoding and, with a valid reply, no error. Sweeps: card numbers F x N grid around the Wiegand-26 bounds and (thorough) every card number 0..30,000,000. Non-trivial = rejected tuple or a tuple within one step of a boundary; distinct = distinct tuple.",
 		"hook layer (in-memory driver): 'nothing on the network' is observed as 'no driver invocation'")
 	ev.Main(m, "C07")
 }
@@ -136,9 +136,12 @@ func validReply(c spec.Call) [][]byte {
 	return [][]byte{b}
 }
 
-func decide(cs api.Case) (*rp.Fail, bool) {
+func decide(cs api.Case) (*rp.Fail, bool) { return decideWith(cs, hook.ClientCfg{}) }
+
+// decideWith: the verdict depends on the arguments only - never on how the client happens to be configured.
+func decideWith(cs api.Case, cfg hook.ClientCfg) (*rp.Fail, bool) {
 	reject, why := mustReject(cs)
-	u, d := hook.Mem(hook.ClientCfg{})
+	u, d := hook.Mem(cfg)
 	d.Reset(validReply(cs.Call)...)
 	var res api.Result
 	if cs.Call.Op == "GetDevices" {
@@ -429,8 +432,96 @@ func TestCardNumbers(t *testing.T) {
 	ev.Bulk("sweep/card-numbers-vs-wiegand26", n, nt)
 }
 
+// configured clients: the same argument tuples on clients with configured controllers (with / without address, udp / tcp,
+// any configured time zone), bind / broadcast / listen addresses and debug output - and arguments that COINCIDE with
+// configured values (the listener is the controller's own address, the bind, broadcast or listen address; the new
+// address is the configured one; the card number equals the controller id ...).
+type cfgCase struct {
+	Case api.Case       `json:"case"`
+	Cfg  hook.ClientCfg `json:"cfg"`
+	Same string         `json:"coincides,omitempty"`
+}
+
+func genCfgCase(t *rapid.T) cfgCase {
+	c := cfgCase{Case: genCase(t)}
+	call := &c.Case.Call
+	cfg := &c.Cfg
+	cfg.Debug = gen.Debug(t, "debug")
+	if rapid.Bool().Draw(t, "bind") {
+		cfg.BindIP, cfg.BindPort = [4]byte{192, 168, 1, 5}, uint16(rapid.SampledFrom([]int{0, 50000}).Draw(t, "bind.port"))
+	}
+	if rapid.Bool().Draw(t, "broadcast") {
+		cfg.HasBroadcast, cfg.BroadcastIP, cfg.BroadcastPort = true, [4]byte{192, 168, 1, 255}, uint16(rapid.SampledFrom([]int{60000, 60005}).Draw(t, "broadcast.port"))
+	}
+	if rapid.Bool().Draw(t, "listen") {
+		cfg.HasListen, cfg.ListenIP, cfg.ListenPort = true, [4]byte{192, 168, 1, 5}, 60001
+	}
+	ctrl := hook.DeviceCfg{Name: "Alpha", Serial: call.Serial, TZ: gen.DeviceTZ(t, "tz"), ViaNew: rapid.Bool().Draw(t, "via.new"), Doors: []string{"D1", "D2", "D3", "D4"}}
+	kind := rapid.IntRange(0, 3).Draw(t, "controller")
+	switch kind {
+	case 1:
+		ctrl.Protocol = "udp"
+	case 2:
+		ctrl.HasAddr, ctrl.IP, ctrl.Port, ctrl.Protocol = true, [4]byte{192, 168, 1, 100}, uint16(rapid.SampledFrom([]int{60000, 54321}).Draw(t, "controller.port")), "udp"
+	case 3:
+		ctrl.HasAddr, ctrl.IP, ctrl.Port, ctrl.Protocol = true, [4]byte{192, 168, 1, 100}, uint16(rapid.SampledFrom([]int{60000, 54321}).Draw(t, "controller.port")), "tcp"
+	}
+	if kind != 0 && call.Op != "GetDevices" {
+		cfg.Devices = append(cfg.Devices, ctrl)
+	}
+	if rapid.Bool().Draw(t, "other") {
+		cfg.Devices = append(cfg.Devices, hook.DeviceCfg{Name: "Beta", Serial: call.Serial ^ 0x10, HasAddr: true, IP: [4]byte{192, 168, 1, 101}, Port: 60000, Protocol: "udp", TZ: gen.DeviceTZ(t, "tz.other")})
+	}
+	if rapid.IntRange(0, 2).Draw(t, "coincide") != 0 && c.Case.V.ListenerRaw == "" && c.Case.V.RawIPs == nil {
+		type ap struct {
+			name string
+			ip   [4]byte
+			port uint16
+		}
+		opts := []ap{{"listener = controller address", [4]byte{192, 168, 1, 100}, 60000}, {"listener = controller address", [4]byte{192, 168, 1, 100}, 54321}, {"listener = bind address", [4]byte{192, 168, 1, 5}, 50000},
+			{"listener = broadcast address", [4]byte{192, 168, 1, 255}, 60000}, {"listener = listen address", [4]byte{192, 168, 1, 5}, 60001}, {"listener = other controller", [4]byte{192, 168, 1, 101}, 60000},
+			{"listener = loopback", [4]byte{127, 0, 0, 1}, 60001}, {"listener = limited broadcast", [4]byte{255, 255, 255, 255}, 60000}}
+		o := opts[rapid.IntRange(0, len(opts)-1).Draw(t, "coincide.which")]
+		switch call.Op {
+		case "SetListener":
+			call.Listener, call.Port, c.Same = o.ip, o.port, o.name
+		case "SetAddress":
+			call.Address, c.Same = o.ip, "address = "+o.name[11:]
+			if rapid.Bool().Draw(t, "gateway.too") {
+				call.Gateway = o.ip
+			}
+		case "PutCard", "GetCardByID", "DeleteCard":
+			if call.Serial != 0 && call.Serial != 0xffffffff && call.Serial != 0x00ffffff && len(c.Case.V.Formats) == 0 {
+				call.Card, c.Same = call.Serial, "card number = controller id"
+			}
+		case "GetCardByIndex", "GetEvent", "SetEventIndex":
+			call.Index, c.Same = call.Serial, "index = controller id"
+		}
+	}
+	return c
+}
+
+func checkCfg(c cfgCase) *rp.Fail {
+	f, reject := decideWith(c.Case, c.Cfg)
+	class := "configured/accepted/" + c.Case.Call.Op
+	if reject {
+		class = "configured/rejected/" + c.Case.Call.Op
+	}
+	ev.Case(class, reject || nearBoundary(c.Case) || c.Same != "", fmt.Sprintf("%+v", c))
+	if c.Same != "" {
+		ev.Class("configured/argument-coincides-with-configuration/"+c.Same, 1)
+	}
+	if ev.WantSample(class) {
+		ev.Sample(class, c)
+	}
+	return f
+}
+
 func props() []rp.Prop {
-	return []rp.Prop{rp.P[api.Case]{Name: "args", Checks: ev.Pick(120000, 20000000) / ev.Shards(), Gen: genCase, Sweep: sweep, Check: check}}
+	return []rp.Prop{
+		rp.P[api.Case]{Name: "args", Checks: ev.Pick(90000, 16000000) / ev.Shards(), Gen: genCase, Sweep: sweep, Check: check},
+		rp.P[cfgCase]{Name: "args-configured", Checks: ev.Pick(60000, 8000000) / ev.Shards(), Gen: genCfgCase, Check: checkCfg},
+	}
 }
 
 func TestC07(t *testing.T)    { rp.RunAll(t, props()...) }
